@@ -52,10 +52,12 @@ def sync : List String := ["access", "write", "hashcheck", "loadable", "load"]
 which a snapshot written while the log grows can be loaded. -/
 def saveSnapshot : List String := ["heads", "len", "entries"]
 
-/-- `LoadFromSnapshot` (`Snap.statusAfterLoad`): the log is rebuilt from the recorded heads, the
+/-- `LoadFromSnapshot` (`Snap.statusAfterLoad`, `goodFetch`): the log is rebuilt from the recorded heads —
+fetched again, through every link — and, as in `Load`, only the entries of this log that the access
+controller and the signature check accept are kept (F47); the
 largest clock is taken over the entries of THAT log (not over every record of the file), the maximum
 is raised, the log is joined, the view refreshed and the status brought up to date (C19). -/
-def loadSnapshot : List String := ["rebuild", "count", "max", "join", "index", "status"]
+def loadSnapshot : List String := ["rebuild", "ownlog", "canappend", "verify", "count", "max", "join", "index", "status"]
 
 /-- `oneonone.Connect` (`Connect.connectLocked`): the look-up of the peer, the `Subscribe` and the insert
 happen under one hold of `muSubs` (the first `Unlock` in the text is the error path after `Subscribe`) -/
